@@ -387,6 +387,7 @@ mod cd {
                     s if s.starts_with("err") || s == "panic" => return s,
                     s => unhex(&s),
                 };
+                let content_hex = hex(&data);
                 let r = with_timeout(move || {
                     let c = match CertificationElements::decode(&data) {
                         Ok(c) => c,
@@ -411,7 +412,8 @@ mod cd {
                     }
                 });
                 tally("cd_validate", &r);
-                r
+                // the TLV content the fields were written to, then the answer
+                format!("{} {}", content_hex, r)
             }
             _ => "badop".into(),
         }
@@ -495,28 +497,58 @@ mod x509 {
         ])
     }
 
-    /// DN of the harness-built certificates: CN then optional Matter VID / PID attributes
-    fn dn(cn: &[u8], vid: Option<&str>, pid: Option<&str>) -> Vec<u8> {
+    /// DN of the harness-built certificates: CN then optional Matter VID / PID attributes.
+    /// Variants (`x=`): `vlc` lower-case hex digits, `vps` PrintableString values, `dup` a second vendor-id attribute
+    /// in front (the last one counts), `mrd` vendor and product id in one multi-valued RDN.
+    fn dn(cn: &[u8], vid: Option<&str>, pid: Option<&str>, x: &str) -> Vec<u8> {
+        let st = if x == "vps" { 0x13 } else { 0x0c };
+        let case = |v: &str| if x == "vlc" { v.to_ascii_lowercase() } else { v.to_string() };
         let mut rdns = vec![derb::atv(derb::OID_CN, 0x0c, cn)];
+        if x == "dup" && vid.is_some() {
+            rdns.push(derb::atv(derb::OID_MATTER_VID, st, b"0000"));
+        }
+        if x == "mrd" {
+            let mut items = Vec::new();
+            if let Some(v) = vid {
+                items.push(derb::seq(&[derb::oid(derb::OID_MATTER_VID), derb::tlv(st, case(v).as_bytes())]));
+            }
+            if let Some(p) = pid {
+                items.push(derb::seq(&[derb::oid(derb::OID_MATTER_PID), derb::tlv(st, case(p).as_bytes())]));
+            }
+            if !items.is_empty() {
+                rdns.push(derb::set(&items));
+            }
+            return derb::seq(&rdns);
+        }
         if let Some(v) = vid {
-            rdns.push(derb::atv(derb::OID_MATTER_VID, 0x0c, v.as_bytes()));
+            rdns.push(derb::atv(derb::OID_MATTER_VID, st, case(v).as_bytes()));
         }
         if let Some(p) = pid {
-            rdns.push(derb::atv(derb::OID_MATTER_PID, 0x0c, p.as_bytes()));
+            rdns.push(derb::atv(derb::OID_MATTER_PID, st, case(p).as_bytes()));
         }
         derb::seq(&rdns)
+    }
+
+    /// raw time element `nbraw=<tag hex>:<content hex>` / `naraw=…` (times the calendar builder cannot express)
+    fn raw_time(v: &str) -> Option<Vec<u8>> {
+        let mut p = v.splitn(2, ':');
+        let tag = u8::from_str_radix(p.next()?, 16).ok()?;
+        Some(derb::tlv(tag, &unhex(p.next()?)))
     }
 
     /// certificate from `k=v` fields (see `gen_x509_rt` for the field list)
     pub fn build(m: &BTreeMap<&str, &str>) -> Vec<u8> {
         let s = |k: &str| m.get(k).copied().filter(|v| *v != "-");
-        let issuer = dn(&opt_hex(m, "icn").unwrap_or_default(), s("ivid"), s("ipid"));
-        let subject = dn(&opt_hex(m, "scn").unwrap_or_default(), s("svid"), s("spid"));
+        // structural variant of the certificate (one per op), see the arms below and `dn`
+        let x = m.get("x").copied().unwrap_or("-");
+        let issuer = dn(&opt_hex(m, "icn").unwrap_or_default(), s("ivid"), s("ipid"), x);
+        let subject = dn(&opt_hex(m, "scn").unwrap_or_default(), s("svid"), s("spid"), x);
         let utc = m.get("tf").copied().unwrap_or("u") == "u";
-        let nb = derb::time(Some(get_num(m, "nb")), utc);
-        let na = match m.get("na").copied() {
-            Some("inf") | None => derb::time(None, false),
-            Some(v) => derb::time(Some(v.parse().unwrap_or(0)), utc),
+        let nb = s("nbraw").and_then(raw_time).unwrap_or_else(|| derb::time(Some(get_num(m, "nb")), utc));
+        let na = match (s("naraw").and_then(raw_time), m.get("na").copied()) {
+            (Some(t), _) => t,
+            (None, Some("inf")) | (None, None) => derb::time(None, false),
+            (None, Some(v)) => derb::time(Some(v.parse().unwrap_or(0)), utc),
         };
         let mut exts = Vec::new();
         // BasicConstraints
@@ -524,6 +556,9 @@ mod x509 {
             let mut items = Vec::new();
             if ca == "1" {
                 items.push(derb::tlv(0x01, &[0xff]));
+            } else if x == "caf" {
+                // explicit `cA FALSE` (the DEFAULT value written out)
+                items.push(derb::tlv(0x01, &[0x00]));
             }
             if let Some(pl) = s("pl") {
                 items.push(derb::uint(&[pl.parse::<u64>().unwrap_or(0) as u8]));
@@ -532,13 +567,34 @@ mod x509 {
         }
         if let Some(ku) = s("ku") {
             let bits = u16::from_str_radix(ku, 16).unwrap_or(0);
-            exts.push(derb::ext(derb::OID_KU, get_num(m, "kuc") != 0, &derb::key_usage(bits)));
+            let (hi, lo) = ((bits >> 8) as u8, bits as u8);
+            let bs = match x {
+                // two octets although the second is zero / three octets / set padding bits / no content octet
+                "kun" => derb::tlv(0x03, &[0, hi, lo]),
+                "ku3" => derb::tlv(0x03, &[0, hi, lo, 0]),
+                "kup" => derb::tlv(0x03, &[hi.trailing_zeros().min(7) as u8, hi | ((1u16 << hi.trailing_zeros().min(7)) - 1) as u8]),
+                "ku0" => derb::tlv(0x03, &[0]),
+                _ => derb::key_usage(bits),
+            };
+            exts.push(derb::ext(derb::OID_KU, get_num(m, "kuc") != 0, &bs));
         }
         if let Some(k) = opt_hex(m, "skid") {
             exts.push(derb::ext(derb::OID_SKID, false, &derb::tlv(0x04, &k)));
         }
         if let Some(k) = opt_hex(m, "akid") {
-            exts.push(derb::ext(derb::OID_AKID, false, &derb::seq(&[derb::tlv(0x80, &k)])));
+            let v = match x {
+                // authorityCertIssuer / serial after the key identifier; constructed [0]; no key identifier at all
+                "akx" => derb::seq(&[derb::tlv(0x80, &k), derb::tlv(0x82, &[1])]),
+                "aka" => derb::seq(&[derb::tlv(0xa0, &k)]),
+                "akn" => derb::seq(&[derb::tlv(0x82, &[1])]),
+                _ => derb::seq(&[derb::tlv(0x80, &k)]),
+            };
+            exts.push(derb::ext(derb::OID_AKID, false, &v));
+        }
+        if x == "ext0" {
+            // an Extension whose SEQUENCE goes on after extnValue, and one with `critical FALSE` written out
+            exts.push(derb::seq(&[derb::oid(derb::OID_UNKNOWN_EXT), derb::tlv(0x04, &[0x05, 0x00]), derb::tlv(0x05, &[])]));
+            exts.push(derb::seq(&[derb::oid(derb::OID_UNKNOWN_EXT), derb::tlv(0x01, &[0x00]), derb::tlv(0x04, &[0x05, 0x00])]));
         }
         match get_num(m, "unk") {
             1 => exts.push(derb::ext(derb::OID_UNKNOWN_EXT, false, &[0x05, 0x00])),
@@ -551,16 +607,34 @@ mod x509 {
             let k = rot % exts.len();
             exts.rotate_left(k);
         }
-        let tbs = derb::seq(&[
-            derb::tlv(0xa0, &derb::uint(&[2])),
-            derb::uint(&opt_hex(m, "ser").unwrap_or_else(|| vec![1])),
-            derb::seq(&[derb::oid(derb::OID_ECDSA_SHA256)]),
-            issuer,
-            derb::seq(&[nb, na]),
-            subject,
-            derb::spki(&opt_hex(m, "pk").unwrap_or_default()),
-            derb::tlv(0xa3, &derb::seq(&exts)),
-        ]);
+        let mut parts: Vec<Vec<u8>> = Vec::new();
+        match x {
+            "ver1" => parts.push(derb::tlv(0xa0, &derb::uint(&[1]))),
+            "ver0" => parts.push(derb::tlv(0xa0, &derb::uint(&[0, 2]))),
+            "nover" => {}
+            _ => parts.push(derb::tlv(0xa0, &derb::uint(&[2]))),
+        }
+        parts.push(derb::uint(&opt_hex(m, "ser").unwrap_or_else(|| vec![1])));
+        parts.push(if x == "sa5" {
+            derb::seq(&[derb::oid(derb::OID_ECDSA_SHA256), derb::tlv(0x05, &[])])
+        } else {
+            derb::seq(&[derb::oid(derb::OID_ECDSA_SHA256)])
+        });
+        parts.push(issuer);
+        parts.push(derb::seq(&[nb, na]));
+        parts.push(subject);
+        parts.push(derb::spki(&opt_hex(m, "pk").unwrap_or_default()));
+        if x == "uid" {
+            // issuerUniqueID [1] / subjectUniqueID [2] in front of the extensions
+            parts.push(derb::tlv(0x81, &[0, 0xaa]));
+            parts.push(derb::tlv(0x82, &[0, 0xbb]));
+        }
+        if x == "e4" {
+            parts.push(derb::tlv(0xa4, &derb::seq(&exts)));
+        } else if x != "noext" {
+            parts.push(derb::tlv(0xa3, &derb::seq(&exts)));
+        }
+        let tbs = derb::seq(&parts);
         derb::wrap_tbs(&tbs, &[0x11; 32], &[0x22; 32])
     }
 
@@ -697,7 +771,13 @@ mod csr {
                     Ok(()) => "ok".to_string(),
                     Err(e) => format!("{:?}", e.code()),
                 };
-                format!("ok pk={} verify={}", pk, v)
+                // signature placement: the signed range and the raw signature `verify` works on (hooks)
+                let tbs = at(&data, c.verif_tbs());
+                let sig = match c.verif_signature() {
+                    Ok(s) => hex(&s),
+                    Err(e) => format!("!{:?}", e.code()),
+                };
+                format!("ok pk={} tbs={} sig={} verify={}", pk, tbs, sig, v)
             }
             Err(e) => errname(&e),
         });
